@@ -18,6 +18,7 @@ fn leak(s: String) -> &'static str {
 struct Cfg {
     names: Vec<&'static str>,
     with_gen: bool,
+    with_fmt: bool,
     svc: VarlinkService,
     log: Log,
 }
@@ -44,8 +45,12 @@ fn make_cfg(rng: &mut Rng) -> Cfg {
     if with_gen {
         ifs.push(Box::new(gen::new(Box::new(GenImpl))));
     }
+    let with_fmt = rng.chance(1, 3);
+    if with_fmt {
+        ifs.push(Box::new(fmt::new(Box::new(FmtImpl))));
+    }
     let svc = VarlinkService::new("V e n", "P\"rod", "1.2.3-β", "http://u/?a=b&c", ifs);
-    Cfg { names, with_gen, svc, log }
+    Cfg { names, with_gen, with_fmt, svc, log }
 }
 
 fn method_strings(cfg: &Cfg, rng: &mut Rng) -> Vec<String> {
@@ -65,6 +70,9 @@ fn method_strings(cfg: &Cfg, rng: &mut Rng) -> Vec<String> {
         "org.verif.gen.Add".into(),
         "org.verif.gen.Nope".into(),
         "org.verif.gen.".into(),
+        "org.verif.fmt.Get".into(),
+        "org.verif.fmt.Bad".into(),
+        "org.verif.fmt".into(),
     ];
     let mut bases: Vec<String> = cfg.names.iter().map(|s| s.to_string()).collect();
     for _ in 0..3 {
@@ -122,6 +130,9 @@ fn spec(cfg: &Cfg, method: &str, params: &Option<Value>) -> Want {
                             Want::Lib(FrameSpec::Exact(json!({"parameters": {"description": desc_of(s)}})))
                         } else if cfg.with_gen && s == "org.verif.gen" {
                             Want::Lib(FrameSpec::Exact(json!({"parameters": {"description": include_str!("../idl/org.verif.gen.varlink")}})))
+                        } else if cfg.with_fmt && s == "org.verif.fmt" {
+                            // the definition file's bytes, whatever its line ends and blanks
+                            Want::Lib(FrameSpec::Exact(json!({"parameters": {"description": FMT_TEXT}})))
                         } else {
                             Want::Lib(FrameSpec::ErrorNamed("org.varlink.service.InvalidParameter"))
                         }
@@ -147,12 +158,20 @@ fn spec(cfg: &Cfg, method: &str, params: &Option<Value>) -> Want {
             m => Want::Lib(FrameSpec::Exact(json!({"error": "org.varlink.service.MethodNotFound", "parameters": {"method": m}}))),
         };
     }
+    if cfg.with_fmt && iface == "org.verif.fmt" {
+        return match method {
+            "org.verif.fmt.Get" => Want::DontCare,
+            m => Want::Lib(FrameSpec::Exact(json!({"error": "org.varlink.service.MethodNotFound", "parameters": {"method": m}}))),
+        };
+    }
     Want::Lib(FrameSpec::Exact(json!({"error": "org.varlink.service.InterfaceNotFound", "parameters": {"interface": iface}})))
 }
 
 fn param_values(rng: &mut Rng) -> Option<Value> {
-    match rng.below(8) {
+    match rng.below(10) {
         0 => None,
+        8 => Some(json!({"interface": "org.verif.gen"})),
+        9 => Some(json!({"interface": "org.verif.fmt"})),
         1 => Some(json!({})),
         2 => Some(json!({"interface": "org.varlink.service"})),
         3 => Some(json!({"interface": *rng.pick(NAME_POOL)})),
@@ -178,6 +197,9 @@ pub fn main(ctx: &Ctx) -> i32 {
             if cfg.with_gen {
                 registered.push("org.verif.gen");
             }
+            if cfg.with_fmt {
+                registered.push("org.verif.fmt");
+            }
             for m in &methods {
                 let flags = *rng.pick(ALL_FLAGS);
                 let params = param_values(&mut rng);
@@ -199,9 +221,9 @@ pub fn main(ctx: &Ctx) -> i32 {
                 let calls: Vec<Ev> = cfg.log.lock().unwrap().iter().filter(|e| matches!(e, Ev::Call { .. })).cloned().collect();
                 let want = spec(&cfg, m, &params);
                 let nontrivial = !cfg.names.is_empty() || m.starts_with("org.varlink.service.");
-                ctx.case(if nontrivial { Some(hash_of(&(&cfg.names, cfg.with_gen, m, flags, params.as_ref().map(|p| p.to_string())))) } else { None });
+                ctx.case(if nontrivial { Some(hash_of(&(&cfg.names, cfg.with_gen, cfg.with_fmt, m, flags, params.as_ref().map(|p| p.to_string())))) } else { None });
                 ctx.count("recorder_calls_observed", calls.len() as u64);
-                let wit = |msg: String| json!({"engine": "c03", "registered": cfg.names, "with_generated": cfg.with_gen, "request": Value::Object(req.clone()), "reply_bytes": show(&run.out), "closed": run.closed, "recorder_calls": format!("{:?}", calls), "message": msg});
+                let wit = |msg: String| json!({"engine": "c03", "registered": cfg.names, "with_generated": cfg.with_gen, "with_generated_fmt": cfg.with_fmt, "request": Value::Object(req.clone()), "reply_bytes": show(&run.out), "closed": run.closed, "recorder_calls": format!("{:?}", calls), "message": msg});
                 if let Some(p) = &run.panicked {
                     ctx.violation("c03:panic", wit(format!("panic {}", p)));
                     continue;
@@ -268,7 +290,7 @@ pub fn main(ctx: &Ctx) -> i32 {
                     }
                     Want::DontCareErr | Want::DontCare => {
                         ctx.count("skipped_unspecified", 1);
-                        let recorder_ok = calls.is_empty() || (cfg.with_gen && m.starts_with("org.verif.gen."));
+                        let recorder_ok = calls.is_empty() || (cfg.with_gen && m.starts_with("org.verif.gen.")) || (cfg.with_fmt && m.starts_with("org.verif.fmt."));
                         if !recorder_ok {
                             ctx.violation("c03:routing:recorder-called-for-dotless-or-unspecified", wit("a recorder was called".into()));
                         } else if matches!(want, Want::DontCareErr) && !flags.oneway && run.closed.is_none() {
@@ -286,10 +308,129 @@ pub fn main(ctx: &Ctx) -> i32 {
             ci += nw;
         }
     });
+    generated_descriptions(ctx);
     ctx.finish(ctx.tier.pick(20_000, 500_000))
 }
 
+/// Undo the escaping of a Rust string literal as printed by a token stream.
+fn unescape_rust_literal(lit: &str) -> Option<String> {
+    let mut out = String::new();
+    let mut it = lit.chars();
+    while let Some(c) = it.next() {
+        if c != '\\' {
+            out.push(c);
+            continue;
+        }
+        match it.next()? {
+            'n' => out.push('\n'),
+            'r' => out.push('\r'),
+            't' => out.push('\t'),
+            '0' => out.push('\0'),
+            '\\' => out.push('\\'),
+            '"' => out.push('"'),
+            '\'' => out.push('\''),
+            'x' => {
+                let h: String = [it.next()?, it.next()?].iter().collect();
+                out.push(u8::from_str_radix(&h, 16).ok()? as char);
+            }
+            'u' => {
+                if it.next()? != '{' {
+                    return None;
+                }
+                let mut h = String::new();
+                loop {
+                    match it.next()? {
+                        '}' => break,
+                        '_' => {}
+                        d => h.push(d),
+                    }
+                }
+                out.push(char::from_u32(u32::from_str_radix(&h, 16).ok()?)?);
+            }
+            _ => return None,
+        }
+    }
+    Some(out)
+}
+
+/// The string literal that the generated `get_description` returns, taken from the code the
+/// generator emits (what a service built from it answers to GetInterfaceDescription).
+fn emitted_description(code: &str) -> Option<String> {
+    let at = code.find("fn get_description")?;
+    let rest = &code[at..];
+    let q = rest.find('"')?;
+    let body = &rest[q + 1..];
+    let mut end = None;
+    let mut esc = false;
+    for (i, c) in body.char_indices() {
+        if esc {
+            esc = false;
+        } else if c == '\\' {
+            esc = true;
+        } else if c == '"' {
+            end = Some(i);
+            break;
+        }
+    }
+    unescape_rust_literal(&body[..end?])
+}
+
+fn generated_description_case(ctx: &Ctx, text: &str, case_id: usize) {
+    let code = match varlink_generator::compile(text.to_string()) {
+        Ok(ts) => ts.to_string(),
+        Err(_) => {
+            ctx.count("generator_rejected_definitions", 1);
+            return;
+        }
+    };
+    let odd = text.contains('\r') || text.contains('\u{2028}') || text.contains('\u{2029}') || text.contains('\t') || text.contains('#');
+    ctx.case(if odd { Some(hash_of(&("gen-desc", text))) } else { None });
+    ctx.count("generated_descriptions_compared", 1);
+    let wit = |m: String| json!({"engine": "c03-generated-description", "definition": text, "case": case_id, "message": m});
+    match emitted_description(&code) {
+        None => ctx.inconclusive(json!(format!("no get_description literal found in generated code (case {})", case_id))),
+        Some(d) if d != text => {
+            let pos = d.chars().zip(text.chars()).position(|(a, b)| a != b).unwrap_or(d.chars().count().min(text.chars().count()));
+            ctx.violation("c03:generated-description-not-verbatim", wit(format!("description in generated code differs from the definition text at char {}: emitted {:?}", pos, d)));
+        }
+        Some(_) => {}
+    }
+}
+
+/// Definitions rendered with every line-end form, tabs, blanks and comments, through the
+/// generator of the tree under test: the description it embeds must be the text itself.
+fn generated_descriptions(ctx: &Ctx) {
+    use crate::idl::*;
+    let n = ctx.tier.pick(3_000usize, 60_000usize);
+    let nw = workers();
+    par(nw, |w| {
+        let mut rng = Rng::lane(ctx.seed, 4400 + w as u64);
+        let mut i = w;
+        while i < n {
+            let cfg = GenCfg::parser();
+            let idl = gen_idl(&mut rng, &cfg);
+            let level = rng.below(3);
+            let mut text = render(&idl, &mut rng, level);
+            if rng.chance(1, 3) {
+                // one line-end convention for the whole file, as a checkout would have it
+                let eol = *rng.pick(&["\r\n", "\r", "\u{2028}"]);
+                text = text.replace("\r\n", "\n").replace('\n', eol);
+            }
+            generated_description_case(ctx, &text, i);
+            if ctx.want_sample() || rng.chance(1, 5000) {
+                ctx.sample(json!({"generated_description_of": text}));
+            }
+            i += nw;
+        }
+    });
+}
+
 pub fn replay(ctx: &Ctx, w: &Value) {
+    if w.get("engine").and_then(|v| v.as_str()) == Some("c03-generated-description") {
+        let text = w.get("definition").and_then(|v| v.as_str()).unwrap_or("");
+        generated_description_case(ctx, text, 0);
+        return;
+    }
     let names: Vec<&'static str> = w.get("registered").and_then(|v| v.as_array()).map(|a| a.iter().filter_map(|x| x.as_str().map(|s| leak(s.to_string()))).collect()).unwrap_or_default();
     let with_gen = w.get("with_generated").and_then(|v| v.as_bool()).unwrap_or(false);
     let log = new_log();
@@ -299,6 +440,10 @@ pub fn replay(ctx: &Ctx, w: &Value) {
     }
     if with_gen {
         ifs.push(Box::new(gen::new(Box::new(GenImpl))));
+    }
+    let with_fmt = w.get("with_generated_fmt").and_then(|v| v.as_bool()).unwrap_or(false);
+    if with_fmt {
+        ifs.push(Box::new(fmt::new(Box::new(FmtImpl))));
     }
     let svc = VarlinkService::new("V e n", "P\"rod", "1.2.3-β", "http://u/?a=b&c", ifs);
     let mut bytes = serde_json::to_vec(w.get("request").unwrap_or(&Value::Null)).unwrap();
